@@ -6,6 +6,7 @@ import (
 	"os"
 	"sync"
 	"testing"
+	"time"
 
 	sm "github.com/weedbox/pokerface/seat_manager"
 	"pgregory.net/rapid"
@@ -68,6 +69,8 @@ func (s *rapidSource) Next(r *Run) (SOp, bool) {
 		return SOp{K: "reserve", S: s.seat(r)}, true
 	case k < 14:
 		return SOp{K: "leave", S: s.seat(r)}, true
+	case k == 16 && rapid.IntRange(0, 2).Draw(rt, "peek") == 0:
+		return SOp{K: "peek", S: rapid.IntRange(-1, r.Max).Draw(rt, "peekSeat")}, true
 	case k == 15 && rapid.IntRange(0, 9).Draw(rt, "reset") == 0:
 		return SOp{K: "reset"}, true
 	case k == 14 && rapid.IntRange(0, 5).Draw(rt, "restore") == 0:
@@ -135,6 +138,9 @@ type betweenCase struct {
 }
 
 func runBetween(c *betweenCase) (v *vlib.Violation, valid bool) {
+	vlib.StartWatchdog(90 * time.Second)
+	vlib.Busy()
+	defer vlib.Idle()
 	defer func() {
 		if e := recover(); e != nil {
 			v = nil // a crash is C18's business
@@ -376,6 +382,9 @@ type raceCase struct {
 }
 
 func runRace(c *raceCase) *vlib.Violation {
+	vlib.StartWatchdog(90 * time.Second)
+	vlib.Busy()
+	defer vlib.Idle()
 	m := sm.NewSeatManager(c.Max)
 	pre := 0
 	for _, s := range c.Pre {
